@@ -48,7 +48,9 @@ def run_chunk(args):
     # are still queued / re-assembled, only other system types are reported instead
     retsys = {"ret_sys_msg": True} if (seed * 2654435761 >> 11) & 1 else {}
     nodes = [dict(addr=a, kind=kinds[a], opts=dict(retsys, **({} if frag else {"fragmentation": False}))) for a in addrs]
-    ns = net.NetSim(nodes, seed=seed, jitter=jitter)
+    # some chunks run in a private address space (prefix / suffix changed after construction, node_address re-assigned)
+    priv = dict(prefix=0x5D, suffix=[0x1E, 0x2D, 0x4B, 0x87, 0x78, 0xB4]) if (seed * 2654435761 >> 13) % 3 == 0 else {}
+    ns = net.NetSim(nodes, seed=seed, jitter=jitter, **priv)
     name = {nd["addr"]: nd["name"] for nd in nodes}
     js = []
     for (s, d, t, n) in jobs:
@@ -56,7 +58,7 @@ def run_chunk(args):
         js.append(net.job_write(name[s], d, t, msg, chk=["C05", "C07"]))
     tr = ns.run(js)
     tr["meta"] = dict(addrs=[oct(a) for a in addrs], kinds={oct(a): k for a, k in kinds.items()}, seed=seed, jitter=jitter,
-                      frag=frag, ret_sys_msg=bool(retsys), jobs=[[oct(s), oct(d), t, n] for (s, d, t, n) in jobs])
+                      frag=frag, ret_sys_msg=bool(retsys), private_addresses=bool(priv), jobs=[[oct(s), oct(d), t, n] for (s, d, t, n) in jobs])
     return tr
 
 
